@@ -160,6 +160,7 @@ class ComplementaryTableInfo:
         # self.parametrization = None: Do not include, see discussion in module docs
         self._last_dataframe_state = None
         self._last_dataframe_empty = None
+        self._last_strict_types = None
 
     def __str__(self):
         return str(self.metadata)
@@ -203,9 +204,11 @@ class ComplementaryTableInfo:
         """
         dataframe_state = df.dtypes
         is_empty = df.empty
+        strict_types = self.metadata.strict_types
         if (
             dataframe_state.equals(self._last_dataframe_state)
             and is_empty == self._last_dataframe_empty
+            and strict_types == self._last_strict_types
         ):
             return
         # the register is edited during the update: forget the remembered state until it succeeds
@@ -213,6 +216,7 @@ class ComplementaryTableInfo:
         self._update_columns(df)
         self._last_dataframe_state = dataframe_state
         self._last_dataframe_empty = is_empty
+        self._last_strict_types = strict_types
 
     @property
     def units(self) -> List[str]:
